@@ -32,7 +32,7 @@ META = {
         'A1 reals, real spaces',
     ],
     'assumptions': ['A1', 'A2', 'A5', 'A6', 'A7', 'positive scaling s > 0, sigma > 0'],
-    'not_decided': ['LpNorm <-> IndicatorLpUnitBall for general p, group norms, nuclear norm, KL pairs (log/exp integrands), QuadraticForm with operator, SeparableSum: bounded functional-pool stand-in only'],
+    'not_decided': ['LpNorm <-> IndicatorLpUnitBall for general p, group norms, nuclear norm, KL pairs (log/exp integrands), QuadraticForm with operator: bounded functional-pool stand-in only (SeparableSum is under contract)'],
 }
 
 
@@ -297,6 +297,8 @@ def units(tier, seed):
             us.append(unit_lp_pair(cn, pk))
     us.append(unit_moreau())
     us.append(unit_pair_l2sq())
+    from contracts import grouplib as _gl
+    us.append(_gl.unit_separable_sum(2 if 'C08' != 'C08' else 3))
     us.append(unit_functional_pool_bounded())
     us.append(unit_canary())
     return us
